@@ -145,7 +145,34 @@ def late_acceptance(ctx):
         ctx.violation({"kind": "oracle", "entry": "pooled transport, slow acceptance", "what": bad[0][1], "scenario": bad[0][0]})
 
 
+def starttls_refusal_family(ctx):
+    """STARTTLS is one of the steps: a negative reply to it - with TLS required or opportunistic - fails the send with the server's code and
+    class, and nothing of the transaction is transmitted afterwards."""
+    import c06
+    scs = []
+    for fl in ("sync", "tokio"):
+        for mode in ("required", "opportunistic"):
+            for reply in ("454", "502"):
+                for creds in (False, True):
+                    scs.append({"id": len(scs), "flavor": fl, "mode": mode,
+                                "server": {"starttls_offered": True, "starttls_reply": reply, "cert": "good", "implicit_tls": False, "caps_before": ["AUTH PLAIN"], "caps_after": ["AUTH PLAIN"]},
+                                "client": {"domain": "localhost", "add_root": True, "accept_invalid_certs": False, "accept_invalid_hostnames": False, "creds": creds}})
+    bad = []
+    for sc, r in zip(scs, c06.run_tls(scs)):
+        ctx.count(); ctx.cls("starttls-refused/" + sc["flavor"])
+        reply = sc["server"]["starttls_reply"]
+        res = str(r.get("result", r.get("error")))
+        want = "err,%s,%s," % ("transient" if reply[0] == "4" else "permanent", reply)
+        sent = [ln for ln in c06.L(r.get("clear", [])) + c06.L(r.get("tls", [])) if ln.upper().startswith((b"MAIL", b"RCPT", b"DATA", b"AUTH", b"SUBJECT"))] if "error" not in r else []
+        if not res.startswith(want) or sent:
+            bad.append((sc, "STARTTLS answered %s (%s TLS, %s): send returned %s%s" % (reply, sc["mode"], sc["flavor"], res[:80], ", and the client went on with %r" % sent[:3] if sent else "")))
+    ctx.cov["oracle"]["starttls_refused_fails_the_send"] = {"scenarios": len(scs), "failures": len(bad)}
+    if bad:
+        ctx.violation({"kind": "oracle", "entry": "STARTTLS refused", "what": bad[0][1], "scenario": bad[0][0], "failures": len(bad)})
+
+
 def run(ctx):
+    starttls_refusal_family(ctx)
     rng = ctx.rng
     late_acceptance(ctx)
     scs = []
